@@ -438,6 +438,7 @@ func main() {
 			}
 		}
 	}
+	historicalCommittee(r.Fork(), *outDir)
 	cw.Close(st)
 	fmt.Printf("c02: %d certificates (%d committed, %d rejected) over %d heights, mutations %v\n", st.Cases, st.Committed, st.Rejected, st.Heights, st.ByKind)
 }
